@@ -229,6 +229,25 @@ func BuildSchnorr(ec elliptic.Curve, session []byte, x *big.Int, label string) (
 	return pf, X, err
 }
 
+// PeerCurve returns the curve object another party (another process) would hold for the same curve: an
+// equivalent but distinct object where the library can build one (tss.Edwards() builds a fresh one per call;
+// secp256k1 is a process-wide singleton).
+func PeerCurve(ec elliptic.Curve) elliptic.Curve {
+	if CurveName(ec) == string(tss.Ed25519) {
+		return tss.Edwards()
+	}
+	return ec
+}
+
+// OnPeerCurve rebuilds a point from its coordinates on the peer's curve object.
+func OnPeerCurve(p *crypto.ECPoint) *crypto.ECPoint {
+	q, err := crypto.NewECPoint(PeerCurve(p.Curve()), p.X(), p.Y())
+	if err != nil {
+		return p
+	}
+	return q
+}
+
 // SchnorrNonce replays the prover's first draw (the nonce a) for a label.
 func SchnorrNonce(ec elliptic.Curve, label string) *big.Int {
 	return common.GetRandomPositiveInt(core.NewDRBG(label), ec.Params().N)
